@@ -22,9 +22,12 @@ def densclose(a, b):
     if a.shape != b.shape:
         return False, None
     same_inf = np.isinf(a) & np.isinf(b) & (np.sign(a) == np.sign(b))
+    # a flow that returns NaN (seen with linear_transform='svd' on this stack) returns it on re-evaluation too: the
+    # stored value *is* what the definition gives, so it counts as agreement (the NaN itself is C20's business)
+    same_nan = np.isnan(a) & np.isnan(b)
     with np.errstate(invalid="ignore"):
         ok = np.abs(a - b) <= ATOL + RTOL * np.maximum(np.abs(a), np.abs(b))
-    ok = ok | same_inf
+    ok = ok | same_inf | same_nan
     if np.all(ok):
         return True, None
     bad = np.argwhere(~ok)[0]
